@@ -7,6 +7,9 @@ Blocks (`case <id>` … `end`):
       -> `<id> b <u> <T> <k> <q> … s <u> <q> …`   buckets and node spans (Rat), distinct keys in log order
   op mix / group <w q> <m q> <v q> <w> <m> <v> …   (one line per total-tips group)
       -> `<id> <mean q> <var q>`
+  op rule / n <N> / ptree <T> <p_0> … <p_{N-1}> (parent of each node in the tree, -1 = none)
+                 / inprev <b_0> … <b_{N-1}>    (1 = node is in that tree), one ptree+inprev pair per tree
+      -> `<id> f <u> … f <u> …`   the flush rule's node set (`ruleFlush`, deduplicated) for each transition
 Anything malformed (wrong arity, trees/flush lines not alternating, zero total weight) -> `<id> bad-op`.
 -/
 import TsdateVerif.Model.Spans
@@ -62,6 +65,26 @@ def runCase (blk : List (List String)) : Option String := do
     let bs := keys.map (fun (u, T, k) => s!"b {u} {T} {k} {ratToString (bucket log u T k)}")
     let ss := nodes.map (fun u => s!"s {u} {ratToString (nodeSpan log u)}")
     pure (id ++ " " ++ " ".intercalate (bs ++ ss))
+  | "rule" =>
+    let N ← (← (← field blk "n").head?).toNat?
+    let pts ← mapAll (fun (l : List String) => match l with
+      | _ :: t :: ps => do
+        let t ← t.toNat?
+        let ps ← mapAll parseDesc ps
+        if ps.length ≠ N then none
+        pure (t, ps.toArray)
+      | _ => none) (blk.filter (fun l => l.head? = some "ptree"))
+    let ins ← mapAll (fun (l : List String) => do
+      let bs ← mapAll (fun w => if w = "1" then some true else if w = "0" then some false else none) l.tail
+      if bs.length ≠ N then none
+      pure bs.toArray) (blk.filter (fun l => l.head? = some "inprev"))
+    if pts.length ≠ ins.length ∨ pts.length = 0 then none
+    let trees := pts.zip ins
+    let pairs := trees.zip trees.tail
+    let outs := pairs.map (fun (a, b) =>
+      let fl := (ruleFlush N a.1.2 b.1.2 a.1.1 b.1.1 (fun u => a.2[u]!)).eraseDups
+      "f " ++ " ".intercalate (fl.map toString))
+    pure (id ++ " " ++ " ".intercalate outs)
   | "mix" =>
     let glines := (blk.filter (fun l => l.head? = some "group")).map List.tail
     let groups ← mapAll (fun ws => do let qs ← mapAll parseRat ws; triples qs) glines
